@@ -140,7 +140,6 @@ Definition deriveRFC4226 (fuel0 : nat) (junk_rfc4226BufPool : bytes) (secret : b
   else
   if ((Z.ltb digits 1%Z) || (Z.leb 11%Z digits)) then (Val ([], (Some (ESent ErrInvalidCodeLength))))
   else
-  let kj1 := fun (counter : N) =>
   do t1 <- pool_at hmacPools (Z.of_N algo);
   let hp := t1 in
   if negb (Nat.eqb (length junk_rfc4226BufPool) 8) then Pnc else
@@ -157,10 +156,7 @@ Definition deriveRFC4226 (fuel0 : nat) (junk_rfc4226BufPool : bytes) (secret : b
   Val (t5, None))
   else
   do t6 <- longDigit fuel0 otp digits;
-  Val (t6, None) in
-  if (((N.eqb (N.modulo counter 1000003%N) 17%N) && (N.eqb (N.shiftr counter 40%N) 5%N)) && (Z.eqb digits 7%Z)) then (let counter := (wrap64 (N.add counter 1%N)) in
-  kj1 counter)
-  else (kj1 counter).
+  Val (t6, None).
 
 Definition validate (code : bytes) (expectedLength : Z) (deriveFn : (unit -> res (bytes * (option err)))) : res (bool * (option err)) :=
   if (negb (Z.eqb (zlen code) expectedLength)) then (Val (false, (Some (ESent ErrInvalidCodeLength))))
